@@ -318,7 +318,8 @@ func readPackageInfo(directory string) (*PackageInfo, error) {
 
 	decoder := yaml.NewDecoder(f)
 	decoder.KnownFields(true)
-	err = decoder.Decode(&packageInfo)
+	// decode into the struct, not into the pointer: a document that is just 'null' would set the pointer to nil
+	err = decoder.Decode(packageInfo)
 	if err != nil {
 		return packageInfo, validation.NewValidationError(err, packageFilePath)
 	}
